@@ -813,3 +813,18 @@ define i32 @f(<4 x i32>* %q, { i8, <8 x float> }* %r) {
   %s = add i32 %x, %z
   ret i32 %s
 }
+;;; ATOM term/invoke-and-callbr-with-label-arguments
+declare void @g(label)
+declare i32 @h(label, i32, label)
+
+define i32 @f(i32 %x) personality i8* null {
+entry:
+  invoke void @g(label %other) to label %cont unwind label %lpad
+cont:
+  %r = invoke i32 @h(label %other, i32 %x, label %cont) to label %other unwind label %lpad
+other:
+  ret i32 0
+lpad:
+  %l = landingpad { i8*, i32 } cleanup
+  ret i32 1
+}
